@@ -157,7 +157,7 @@ def write_emissions_file(folder, columns):
     rows = max(len(c["values"]) for c in columns)
     lines = [",".join(c["name"] for c in columns),
              ",".join(c["kind"] for c in columns),
-             ",".join("lognorm" if c["kind"] == "dist" else "" for c in columns),
+             ",".join("lognorm" if c["kind"].strip().lower() == "dist" else "" for c in columns),
              ",".join(c["cap"] for c in columns),
              ",".join(c["metric"] for c in columns),
              ",".join(c["increment"] for c in columns)]
@@ -248,15 +248,19 @@ def record_binomial():
 
 
 def run_generate(dur, multi, pre_enabled, n_days, prod_rate, np_seed, rate_sources, rate_key="r",
-                 repairable=True, persistent=True, sim_number=0):
+                 repairable=True, persistent=True, sim_number=0, sim_start=None, source=None):
     """one real Source.generate_emissions call; returns dict with the recorded Bernoulli outcomes
-    and the stored pending list [(start offset, id int, id string, rate)]"""
-    src = make_source(dur, multi, prod_rate, rate_source=rate_key, repairable=repairable,
-                      persistent=persistent)
-    end = SIM_START + timedelta(days=n_days - 1)
+    and the stored pending list [(start offset, id int, id string, rate)].  Offsets are computed here
+    with datetime.date arithmetic from the emissions' own `_start_date` (independent of the pandas
+    date_range indexing the code uses); `dates` are the ISO calendar dates.  `source`: reuse an
+    existing real Source object (same-process history) instead of building a fresh one."""
+    src = source if source is not None else make_source(dur, multi, prod_rate, rate_source=rate_key,
+                                                        repairable=repairable, persistent=persistent)
+    start = sim_start or SIM_START
+    end = start + timedelta(days=n_days - 1)
     np.random.seed(np_seed)
     with record_binomial() as calls:
-        ret = src.generate_emissions(SIM_START, end, sim_number, rate_sources, pd.DataFrame(), pre_enabled)
+        ret = src.generate_emissions(start, end, sim_number, rate_sources, pd.DataFrame(), pre_enabled)
     stored = src._generated_emissions[sim_number]
     if ret[src.get_id()] is not stored:
         raise RuntimeError("generate_emissions: returned list is not the stored list")
@@ -268,9 +272,13 @@ def run_generate(dur, multi, pre_enabled, n_days, prod_rate, np_seed, rate_sourc
         if len(calls) != 1:
             raise RuntimeError(f"expected 1 binomial call, saw {len(calls)}")
         pre, sim = [], calls[0]["out"]
-    ems = [((e._start_date - SIM_START).days, int(e._emissions_id), e._emissions_id, float(e._rate))
+    for e in stored:
+        if type(e._start_date) is not date:
+            raise RuntimeError(f"emission start is {type(e._start_date).__name__}, not datetime.date")
+    ems = [((e._start_date - start).days, int(e._emissions_id), e._emissions_id, float(e._rate))
            for e in stored]
-    return {"pre": pre, "sim": sim, "ems": ems, "calls": calls}
+    return {"pre": pre, "sim": sim, "ems": ems, "calls": calls,
+            "dates": [e._start_date.isoformat() for e in stored], "source": src}
 
 
 def gen_line(dur, multi, pre_enabled, pre, sim):
@@ -398,22 +406,50 @@ def folder_state(gen_dir):
     return n_saved, fps
 
 
-def run_history(steps, gen_dir, source_specs, rate_sources, n_days, pre_enabled, np_seed):
+def _fp_scen(scen, start=None):
+    start = start or SIM_START
+    return tuple((sid, tuple(((e._start_date - start).days, e._emissions_id, float(e._rate)) for e in ems))
+                 for sid, ems in sorted(scen.items()))
+
+
+class _MemoInfrastructure(_RecordingInfrastructure):
+    """additionally keeps a fingerprint of what generate_emissions RETURNED (before pickling)"""
+
+    def __init__(self, sources, rate_sources, events, memo):
+        super().__init__(sources, rate_sources, events)
+        self._memo = memo
+
+    def generate_emissions(self, sim_start_date, sim_end_date, sim_number, pre_simulation_emissions=True):
+        out = super().generate_emissions(sim_start_date, sim_end_date, sim_number, pre_simulation_emissions)
+        self._memo[sim_number] = _fp_scen(out[sim_number])
+        return out
+
+
+def run_history(steps, gen_dir, source_specs, rate_sources, n_days, pre_enabled, np_seed, reload=False):
     """steps: [(n_sims, hash_file_exist)].  Per step the REAL gen_seed_emis and the REAL
     initialize_emissions run on the same generator folder, exactly as the simulation manager chains
     them (force_remake of the first is handed to the second).  np.random.seed and the infrastructure
-    call are recorded (not altered).  Returns one dict per step."""
+    call are recorded (not altered).  reload=True: from the second step on the sources are the ones of
+    the first step after a pickle round trip (the simulation manager reloads gen_infrastructure.p).
+    Returns one dict per step."""
     gen_dir = pathlib.Path(gen_dir)
     np.random.seed(np_seed)
     out = []
+    pickled = None
     for (n, hash_exists) in steps:
+        existed = gen_dir.exists() and (gen_dir / Generator_Files.EMISSION_PRESEED_FILE).exists()
         before_saved, before_fps = folder_state(gen_dir) if gen_dir.exists() else (0, {})
         with contextlib.redirect_stdout(io.StringIO()):
             seeds, force = PRESEED.gen_seed_emis(n, gen_dir)
         seeds = [int(v) for v in seeds]
-        events = []
-        srcs = [make_source(d, m, p, sid=f"S{k}") for k, (d, m, p) in enumerate(source_specs)]
-        infra = _RecordingInfrastructure(srcs, rate_sources, events)
+        events, memo = [], {}
+        if reload and pickled is not None:
+            srcs = pickle.loads(pickled)
+        else:
+            srcs = [make_source(d, m, p, sid=f"S{k}") for k, (d, m, p) in enumerate(source_specs)]
+            if pickled is None:
+                pickled = pickle.dumps(srcs)
+        infra = _MemoInfrastructure(srcs, rate_sources, events, memo)
         with record_np_seed(events), contextlib.redirect_stdout(io.StringIO()):
             INIT.initialize_emissions(n, True, seeds, hash_exists, infra, SIM_START,
                                       SIM_START + timedelta(days=n_days - 1), gen_dir, pre_enabled,
@@ -427,9 +463,11 @@ def run_history(steps, gen_dir, source_specs, rate_sources, n_days, pre_enabled,
                 last = None
         after_saved, after_fps = folder_state(gen_dir)
         seed_file = [int(v) for v in PRESEED.get_emis_seed(gen_dir)]
-        out.append({"n": n, "fresh": (not hash_exists) or bool(force), "seeds_passed": seeds,
+        out.append({"n": n, "fresh": (not hash_exists) or (not existed), "force_returned": bool(force),
+                    "force_expected": not existed, "seeds_passed": seeds,
                     "seed_file": seed_file, "trace": trace, "saved_before": before_saved,
-                    "saved_after": after_saved, "fps_before": before_fps, "fps_after": after_fps})
+                    "saved_after": after_saved, "fps_before": before_fps, "fps_after": after_fps,
+                    "returned_fps": memo})
     return out
 
 
@@ -443,7 +481,7 @@ def run_generate_outcome(dur, multi, pre_enabled, n_days, prod_rate, np_seed, ra
     try:
         ret = src.generate_emissions(SIM_START, SIM_START + timedelta(days=n_days - 1), 0, rate_sources,
                                      pd.DataFrame(), pre_enabled)
-    except Exception as e:      # noqa: BLE001 - the class is the observation
+    except (Exception, SystemExit) as e:      # noqa: BLE001 - the class is the observation
         return ("raised", type(e).__name__)
     return ("returned", len(ret[src.get_id()]))
 
@@ -472,3 +510,49 @@ def read_generator_folder(gen_dir, start):
         walk(d, ())
         out[i] = rows
     return seeds, n_saved, out
+
+
+# ------------------------------------------------------------------------------------------------
+# the same case ALONE in a fresh process (reference for same-process history runs)
+# ------------------------------------------------------------------------------------------------
+def rates_of_folder(folder, np_seed, k):
+    """what one emissions file gives: converted samples, converted maxima and k rates per column"""
+    srcs = load_rate_sources(folder)
+    out = {}
+    for name, s in sorted(srcs.items()):
+        np.random.seed(np_seed)
+        rates = [float(s.get_a_rate()) for _ in range(k)]
+        out[name] = {"class": type(s).__name__, "rates": rates,
+                     "samples": [float(x) for x in getattr(s, "_samples", [])],
+                     "max": float(s._max_emis_rate)}
+    return out
+
+
+def alone_jobs(jobs, timeout=300):
+    """each job {"folder", "np_seed", "k"} in its OWN fresh interpreter, all started together"""
+    import json
+    import subprocess
+    import sys
+    env = dict(os.environ)
+    env["PYTHONPATH"] = os.path.dirname(os.path.dirname(os.path.dirname(os.path.abspath(__file__)))) \
+        + os.pathsep + env.get("PYTHONPATH", "")
+    env["PYTHONDONTWRITEBYTECODE"] = "1"
+    procs = [subprocess.Popen([sys.executable, "-m", "harness.adapters.gen", json.dumps(j)], env=env,
+                              stdout=subprocess.PIPE, stderr=subprocess.PIPE, text=True) for j in jobs]
+    res = []
+    for p_ in procs:
+        o, e = p_.communicate(timeout=timeout)
+        if p_.returncode != 0:
+            res.append({"error": e[-400:]})
+        else:
+            res.append(json.loads(o.strip().splitlines()[-1]))
+    return res
+
+
+if __name__ == "__main__":
+    import json
+    import sys
+    job = json.loads(sys.argv[1])
+    with contextlib.redirect_stdout(io.StringIO()):
+        r = rates_of_folder(job["folder"], job["np_seed"], job["k"])
+    print(json.dumps(r))
